@@ -218,6 +218,111 @@ func (p *Prog) resolveRenames() {
 			fmt.Fprintf(os.Stderr, "RENAMED %s is now %s (%.2f)\n", pr.ref, pr.f, pr.score)
 		}
 	}
+	/* Second pass, for what is still missing: the signature may have
+	changed with the name (a method made a plain function, a parameter
+	added).  Then only the body speaks, and it must speak clearly: a large
+	overlap, well ahead of the runner-up. */
+	for _, name := range missing {
+		if nil != p.renamed[name] {
+			continue
+		}
+		ri := refInfo[name]
+		if len(ri.Marks) < 3 {
+			continue
+		}
+		var best, second float64
+		var bestF *ssa.Function
+		for _, f := range newcomers {
+			if taken[f] || f.Pkg.Pkg.Path() != ri.Pkg {
+				continue
+			}
+			if _, ok := marks[f]; !ok {
+				marks[f] = funcMarks(f)
+			}
+			sc := jaccard(ri.Marks, marks[f])
+			if sc > best {
+				best, second, bestF = sc, best, f
+			} else if sc > second {
+				second = sc
+			}
+		}
+		if nil != bestF && best >= 0.6 && best-second >= 0.15 {
+			p.renamed[name] = bestF
+			taken[bestF] = true
+			renameImage[bestF] = name
+			if "" != os.Getenv("CRS_FLATDEBUG") {
+				fmt.Fprintf(os.Stderr, "RENAMED (signature changed) %s is now %s (%.2f, next %.2f)\n", name, bestF, best, second)
+			}
+		}
+	}
+}
+
+// resolveMerged: for every reference function the tree lacks under any name,
+// the function its body was written into.  Called after helpers are folded,
+// so that what it finds is what the rules will read.
+func (p *Prog) resolveMerged() {
+	have := map[string]bool{}
+	for _, f := range p.funcs {
+		if nil == f.Parent() && "" == f.Synthetic {
+			have[f.String()] = true
+		}
+	}
+	var missing []string
+	for name := range refInfo {
+		if !have[name] && !foldedRefFuncs[name] {
+			missing = append(missing, name)
+		}
+	}
+	sort.Strings(missing)
+	/* Third: a reference function whose body was written into its caller.
+	The function (or function literal) which now refers to nearly everything
+	the reference function referred to, and is the smallest to do so, is
+	where the rules should look. */
+	p.merged = map[string]*ssa.Function{}
+	for _, name := range missing {
+		if nil != p.renamed[name] {
+			continue
+		}
+		ri := refInfo[name]
+		if len(ri.Marks) < 3 {
+			continue
+		}
+		want := map[string]bool{}
+		for _, m := range ri.Marks {
+			want[m] = true
+		}
+		var bestF *ssa.Function
+		bestSize := 0
+		for _, f := range p.funcs {
+			if nil == f.Pkg || f.Pkg.Pkg.Path() != ri.Pkg || "" != f.Synthetic && !strings.Contains(f.Synthetic, "range-over-func") {
+				continue
+			}
+			n := 0
+			for _, m := range funcMarks(f) {
+				if want[m] {
+					n++
+				}
+			}
+			if float64(n) < 0.8*float64(len(want)) {
+				continue
+			}
+			size := 0
+			for _, g := range withAnons(f) {
+				for _, b := range g.Blocks {
+					size += len(b.Instrs)
+				}
+			}
+			if nil == bestF || size < bestSize {
+				bestF, bestSize = f, size
+			}
+		}
+		if nil != bestF {
+			p.merged[name] = bestF
+			if "" != os.Getenv("CRS_FLATDEBUG") {
+				fmt.Fprintf(os.Stderr, "MERGED %s is now part of %s\n", name, bestF)
+			}
+		}
+	}
 }
 
 // renamedFunc: the function standing in for the reference function named so.
@@ -230,6 +335,11 @@ func (p *Prog) renamedFunc(pkgPath, recv, name string) *ssa.Function {
 	}
 	for _, k := range keys {
 		if f := p.renamed[k]; nil != f {
+			return f
+		}
+	}
+	for _, k := range keys {
+		if f := p.merged[k]; nil != f {
 			return f
 		}
 	}
